@@ -251,4 +251,8 @@ def run(R) -> None:
     R.rule('C20.R1', lambda: r1_same_tokeniser(R))
     R.rule('C20.R2', lambda: r2_nodes_edges(R))
     R.rule('C20.R4', lambda: r4_fresh_graph(R))
+    # "every term with an edge into y is actually read when y is evaluated" also for the Fortran engine: its equations address
+    # rows of one matrix by variable number, so the numbering must follow NAMES (C07.R1 owns the detail)
+    from rules import c07
+    R.rule('C20.R5', lambda: c07.r1_numbering(R))
     R.rule('C20.R3', lambda: (c01.r3_one_template(R), c01.r1_term_rendering(R)))
